@@ -36,6 +36,7 @@ static Plan gen_restart(Rng& r, int tier, std::string const& focus)
     o.max_iters = tier ? 6 : 4;
     o.allow_zero_calls = false;
     if (focus == "C03" && r.chance(0.6)) o.eng_class = 3;
+    if (focus == "C08") o.integ = MULTI;
     gen_world(r, p, o);
     while (p.calls.size() < 2) p.calls.push_back(2 + r.below(60));
     if (r.chance(0.15) && tier)
@@ -357,7 +358,7 @@ static Plan gen_durable(Rng& r, int tier, std::string const&)
     else if (p.variant == 2)
     {
         p.grid = 1;
-        p.wts = 1;
+        p.wts = r.chance(0.7);   // a default multi-channel checkpoint that never ran has a text, too
         if (p.integ == PLAIN) p.integ = VEGAS;
         p.calls.clear();
     }
